@@ -17,7 +17,7 @@ import random
 import sys
 import threading
 
-from vsim import steps, world, specgen, shrink, wire, sched
+from vsim import steps, world, specgen, shrink, wire, sched, graph
 from vsim.digest import ProbeSet, first_difference
 from vsim.rng import mix
 from vsim.runner import Engine, Result
@@ -26,6 +26,7 @@ from vsim.valgen import corrupt, ValGen, Unsupported
 
 CODECS = ['ber', 'der', 'per', 'uper', 'oer', 'jer', 'xer', 'gser']
 OP_BUDGET = 1500000
+AMPLIFY_ROUNDS = 60
 threading.stack_size(64 * 1024 * 1024)
 
 
@@ -60,7 +61,7 @@ class C18(Engine):
         'stub': ['who runs next: decided by the simulator, never by the OS'],
     }
     tiers = {
-        'quick': dict(runs=480, wall_cap=170, chunk=2, minimise_s=60),
+        'quick': dict(runs=1600, wall_cap=170, chunk=4, minimise_s=60),
         'thorough': dict(runs=30000, wall_cap=3300, chunk=4, minimise_s=180),
     }
 
@@ -223,6 +224,7 @@ class C18(Engine):
 
         shared, oracle = shared[1], oracle[1]
         ops = case['ops']
+        pristine, pristine_entries = graph.fingerprint(oracle)
 
         # -- reference: every operation alone on O ---------------------------
         datas = []
@@ -268,6 +270,27 @@ class C18(Engine):
 
         if not live:
             return result
+
+        if graph.fingerprint(oracle)[0] != pristine:
+            # The reference specification did not stay as compiled while
+            # the operations ran on it one after the other, so "alone on a
+            # freshly compiled specification" is taken literally: one fresh
+            # compile per operation.
+            result.stats['probe-reference-graph-changed'] += 1
+
+            for index in live:
+                fresh = world.compile_text(text, codec,
+                                           case['numeric_enums'])
+
+                if fresh[0] != 'ok':
+                    continue
+
+                fn, _ = self.make_call(fresh[1], ops[index], datas[index])
+                outcome, ticks = steps.call(fn, OP_BUDGET)
+                result.ticks += ticks
+
+                if outcome[0] != 'hang':
+                    expected[index] = outcome
 
         n_threads = max(1, min(case['threads'], 8))
         total_ref = sum(ref_ticks[i] for i in live)
@@ -393,21 +416,53 @@ class C18(Engine):
                         'got': str(difference[1])[:300],
                         'expected': str(difference[2])[:300]})
 
-        for index in live:
-            fn, arg = self.make_call(shared, ops[index], datas[index])
-            outcome, ticks = steps.call(fn, OP_BUDGET)
-            result.ticks += ticks
+        # The compiled type graph is meant to be read-only.  If it is not
+        # what it was after compile, replay the history several more times
+        # before the final comparison: state that only bites after
+        # accumulating is then caught by the behavioural oracle.
+        rounds = 1
+        after, after_entries = graph.fingerprint(shared)
 
-            if is_recursion(outcome) or is_recursion(expected[index]):
-                continue
+        if after != pristine:
+            result.stats['probe-graph-state-changed'] += 1
+            rounds = AMPLIFY_ROUNDS
 
-            if canon_outcome(outcome) != canon_outcome(expected[index]):
-                report('post-state-diff',
-                       {'where': 'sequential-sweep', 'op': index,
-                        'type': ops[index]['type'],
-                        'got': canon_outcome(outcome)[:300],
-                        'expected': canon_outcome(expected[index])[:300]})
+        mismatch = False
+
+        for round_index in range(rounds):
+            for index in live:
+                fn, arg = self.make_call(shared, ops[index], datas[index])
+                outcome, ticks = steps.call(fn, OP_BUDGET)
+                result.ticks += ticks
+
+                if is_recursion(outcome) or is_recursion(expected[index]):
+                    continue
+
+                if canon_outcome(outcome) != canon_outcome(expected[index]):
+                    report('post-state-diff',
+                           {'where': 'sequential-sweep', 'op': index,
+                            'replay_round': round_index,
+                            'type': ops[index]['type'],
+                            'graph_changes': graph.difference(
+                                after_entries, pristine_entries),
+                            'got': canon_outcome(outcome)[:300],
+                            'expected': canon_outcome(expected[index])[:300]})
+                    mismatch = True
+                    break
+
+            if mismatch:
                 break
+
+            if rounds > 1 and round_index >= 2:
+                # Keep replaying only while the graph keeps changing
+                # (something accumulates); a settled state has been
+                # compared already.
+                now = graph.fingerprint(shared)[0]
+
+                if now == after:
+                    break
+
+                after = now
 
         if n_threads >= 2 and scheduler.switches >= 1:
             result.key('trace', recorded,
